@@ -1,3 +1,4 @@
 //! Shared code of the correspondence harness; one binary per property in src/bin/.
+pub mod conn;
 pub mod rv;
 pub mod util;
